@@ -1699,7 +1699,7 @@ theorem crAdjust_lf (data : Bytes) (d : Nat) (hd13 : d ≠ 13) (rows : List (Lis
 /-- the lines as the format reads them: when every line ends in CR (a CRLF file) the CR is not part of the line -/
 def specLines (bs : Bytes) : List Bytes :=
   let ls := linesOf bs
-  if ls ≠ [] ∧ ls.all (fun l => l.getLast? = some 13) then ls.map stripCR else ls
+  if crlfText ls then ls.map stripCR else ls
 
 /-- **parse_delimited.** For every schema made of the modelled column types (int, signed int, optional int,
 identifier, text, float-as-text, int list, strand), every delimiter other than LF/CR, and every file — LF or
@@ -1721,12 +1721,10 @@ theorem parse_delimited (S : Schema) (sks : List String) (bs : Bytes)
       simp only
       split
       · rename_i h
-        obtain ⟨l0, lrest, hl⟩ : ∃ l0 lrest, linesOf bs = l0 :: lrest := by
-          cases h' : linesOf bs with
-          | nil => exact absurd h' hne
-          | cons a b => exact ⟨a, b, rfl⟩
-        have := (List.all_eq_true.mp h.2) l0 (by rw [hl]; simp)
-        exact absurd (by simpa using this) (hnocr l0 (by rw [hl]; simp))
+        unfold crlfText at h
+        simp only [Bool.and_eq_true, List.any_eq_true] at h
+        obtain ⟨l, hl, h13⟩ := h.2
+        exact absurd (by simpa using h13) (hnocr l hl)
       · rfl
     rw [hsl] at hlen hspec
     obtain ⟨t, ht, htexts, hwfp⟩ := table_rows_facts S.delim hd bs sks.length hne hlen
@@ -1738,9 +1736,16 @@ theorem parse_delimited (S : Schema) (sks : List String) (bs : Bytes)
     have hsl : specLines bs = (linesOf bs).map List.dropLast := by
       unfold specLines
       simp only
-      have hall : (linesOf bs).all (fun l => l.getLast? = some 13) = true := by
-        rw [List.all_eq_true]; intro l hl; simp [hcr l hl]
-      simp only [hne, hall, ne_eq, not_false_eq_true, and_self, if_true]
+      have hcrlf : crlfText (linesOf bs) = true := by
+        unfold crlfText
+        simp only [Bool.and_eq_true, List.all_eq_true, List.any_eq_true]
+        refine ⟨fun l hl => by simp [hcr l (List.dropLast_subset _ hl)], ?_⟩
+        obtain ⟨l0, lrest, hl0⟩ : ∃ l0 lrest, linesOf bs = l0 :: lrest := by
+          cases h' : linesOf bs with
+          | nil => exact absurd h' hne
+          | cons a b => exact ⟨a, b, rfl⟩
+        exact ⟨l0, by rw [hl0]; simp, by simp [hcr l0 (by rw [hl0]; simp)]⟩
+      simp only [hcrlf, if_true]
       apply List.map_congr_left
       intro l hl
       simp [stripCR, hcr l hl]
